@@ -67,8 +67,8 @@ def check(ctx, rep):
                     rule, why = "D-NUM", "operand is a component parsed by number() (<= MAX_SAFE_INTEGER) plus the constant 1"
                 else:
                     why = "this `+` is not reached with a parsed component and the constant 1 in any cell of the desugaring table"
-            elif owner == "range::Range::min_version" and re.search(r"copy \(_\d+\.\d+: u64\), const 1_u64", s["detail"]):
-                rule, why = "D-NUM-STORED", "operand is a component stored in a Range (INV-NUM: <= MAX_SAFE_INTEGER + 1) plus 1"
+            elif stored_component_plus_one(prog, owner, s):
+                rule, why = "D-NUM-STORED", "operand is a component of a Version stored in a Range (INV-NUM: <= MAX_SAFE_INTEGER + 1) plus 1"
         elif kind == "assert" and s["msg"] == "Overflow" and "Sub" in s["detail"] and owner in E_ENTRIES:
             dead = flow.errmode_incomplete_dead_blocks(prog, prog.bodies[owner])
             if s["bb"] in dead and not partial:
@@ -97,6 +97,16 @@ def check(ctx, rep):
 
 
 E_ENTRIES = ("Version::parse", "range::Range::parse")
+
+
+def stored_component_plus_one(prog, owner, s):
+    """`x.field + 1` where x is a local of type Version inside a method of BoundSet / Range (its versions are stored
+    range components, bounded by INV-NUM)"""
+    m = re.search(r"Overflow\(Add, copy \(_(\d+)\.(\d+): u64\), const 1_u64\)", s["detail"])
+    if not m or not (owner.startswith("range::Range::") or owner.startswith("range::BoundSet::")):
+        return False
+    body = prog.bodies[owner]
+    return prog.ty_str(body["locals"][int(m.group(1))]) == "Version"
 
 
 def loc_rule(s):
